@@ -105,6 +105,9 @@ def discharge(ob, use_cvc5=True):
             ob.verdict, ob.backend = 'refuted', 'cvc5'
             ob.model = {}
             return ob
+    if bounded_refute(ob):
+        ob.secs = time.time() - t0
+        return ob
     ob.verdict, ob.backend = 'undecided', 'z3+cvc5'
     dump = os.environ.get('PYVC_DUMP')
     if dump:
@@ -113,6 +116,47 @@ def discharge(ob, use_cvc5=True):
         with open(os.path.join(dump, hashlib.sha256(ob.name.encode()).hexdigest()[:10] + f'_{ob.path_id}.smt2'), 'w') as fp:
             fp.write('; ' + ob.name + '\n' + smt2)
     return ob
+
+
+def seq_consts(terms):
+    """Uninterpreted constants of sequence sort (strings included) occurring in the terms."""
+    seen, out, stack = set(), {}, list(terms)
+    while stack:
+        t = stack.pop()
+        if t.get_id() in seen:
+            continue
+        seen.add(t.get_id())
+        if z3.is_quantifier(t):
+            stack.append(t.body())
+            continue
+        if z3.is_app(t):
+            if z3.is_const(t) and t.decl().kind() == z3.Z3_OP_UNINTERPRETED and t.sort().kind() == z3.Z3_SEQ_SORT:
+                out[t.decl().name()] = t
+            stack.extend(t.children())
+    return list(out.values())
+
+
+def bounded_refute(ob):
+    """Search for a counterexample among SMALL inputs: the same query with every input sequence bounded in
+    length.  Extra hypotheses only narrow the search, so a model found here is a model of the original negated
+    obligation; nothing is concluded when none is found."""
+    consts = seq_consts(list(ob.hyps) + [ob.goal])
+    if not consts:
+        return False
+    for bound in (2, 4):
+        s = z3.Solver()
+        s.set('timeout', 8000)
+        for h in ob.hyps:
+            s.add(h)
+        s.add(z3.Not(ob.goal))
+        for c in consts:
+            s.add(z3.Length(c) <= bound)
+        if s.check() == z3.sat:
+            ob.verdict, ob.backend = 'refuted', f'z3(bounded-search<={bound})'
+            ob.model = model_to_dict(s.model())
+            ob.z3model = s.model()
+            return True
+    return False
 
 
 def run_cvc5(smt2, timeout=None):
